@@ -244,10 +244,6 @@ theorem sem_fifo_same_run (c : Nat) (es : List SEv) :
     (∀ t o, run (St.init c) es = .ok (t, o) → ∃ g, grun (GSt.init c) es = .ok (g, o) ∧ g.t = t) :=
   ⟨fun _ _ h => grun_t es h, fun _ _ h => grun_of_run es (g := GSt.init c) h⟩
 
-theorem granted_queue_sorted {g : GSt} (hi : GInv g) : (g.granted.map (·.1) ++ g.tq).Pairwise (· < ·) := by
-  rw [hi.part]
-  exact List.Pairwise.filter _ List.pairwise_lt_range
-
 /-- blocked acquirers are granted in request order: the tickets of successive grants increase strictly, and everything
 still queued is younger than every grant made -/
 theorem sem_fifo_grant_order (c : Nat) (es : List SEv) (g : GSt) (o : Outs) (h : grun (GSt.init c) es = .ok (g, o)) :
